@@ -511,8 +511,87 @@ func c17LateRegistration(c *core.Ctx, idx int) {
 		}
 	}
 	_ = usePkg
+	if d := lateRecursive(r); d != "" {
+		rec.Violation("registration-ignored", "a type that refers to itself around a field whose codec is registered late: "+d, nil)
+		return
+	}
 	rec.Count("late_registrations", 1)
 	rec.NonTrivial(core.Hash64("late", part.String(), tag, fmt.Sprint(idx)))
+}
+
+// LateNode refers to itself (pointer, slice) before and after a field whose type has no codec
+// until one is registered; LateDoc holds it by value
+type LateNode struct {
+	Count *int       `plenc:"1"`
+	Label *string    `plenc:"2"`
+	Next  *LateNode  `plenc:"3"`
+	Kids  []LateNode `plenc:"4"`
+	Meta  LateArr    `plenc:"5"`
+	On    *bool      `plenc:"6"`
+	Tail  *LateNode  `plenc:"7"`
+}
+type LateDoc struct {
+	Head LateNode `plenc:"1"`
+	N    int      `plenc:"2"`
+}
+
+// lateRecursive: the build of a type fails inside a nested type that refers to itself, because one
+// field's type has no codec; the codec is registered; from then on the instance behaves like one
+// that had the registration from the start - same bytes, and every pointer to a zero value still
+// present after a round trip (round 12: k09). Returns a description of what went wrong, or "".
+func lateRecursive(r *rand.Rand) string {
+	mk := func() *plenc.Plenc {
+		p := &plenc.Plenc{ProtoCompatibleArrays: r.IntN(2) == 0, ProtoCompatibleTime: r.IntN(2) == 0}
+		p.RegisterDefaultCodecs()
+		return p
+	}
+	late := mk()
+	upfront := &plenc.Plenc{ProtoCompatibleArrays: late.ProtoCompatibleArrays, ProtoCompatibleTime: late.ProtoCompatibleTime}
+	upfront.RegisterDefaultCodecs()
+	arrT := reflect.TypeOf(LateArr{})
+	mc := markerCodec{id: 9, typ: arrT}
+	upfront.RegisterCodec(arrT, mc)
+	zero, empty, no := 0, "", false
+	seven := 7
+	doc := &LateDoc{N: 3, Head: LateNode{Count: &zero, Label: &empty, On: &no,
+		Next: &LateNode{Count: &zero, Label: &empty, On: &no, Next: &LateNode{Count: &seven}, Tail: &LateNode{On: &no}},
+		Kids: []LateNode{{Count: &zero}, {Label: &empty, Next: &LateNode{Count: &zero}}}}}
+	firsts := []any{doc, &LateNode{Count: &zero}, &[]LateDoc{*doc}, &map[string]LateDoc{"k": *doc}, &struct {
+		D *LateDoc `plenc:"1"`
+	}{doc}}
+	r.Shuffle(len(firsts), func(i, j int) { firsts[i], firsts[j] = firsts[j], firsts[i] })
+	for _, f := range firsts[:1+r.IntN(len(firsts))] {
+		_, err, pn := marshal(late, nil, f)
+		if pn != "" {
+			return fmt.Sprintf("Marshal of %T before the registration panicked: %s", f, trunc1(pn))
+		}
+		if err == nil {
+			return "" // (accepted without a codec for the array: nothing to learn here)
+		}
+	}
+	late.RegisterCodec(arrT, mc)
+	want, err, pn := marshal(upfront, nil, doc)
+	if err != nil || pn != "" {
+		return fmt.Sprintf("the instance with the registration from the start fails: %v %s", err, trunc1(pn))
+	}
+	got, err, pn := marshal(late, nil, doc)
+	if err != nil || pn != "" || !bytes.Equal(got, want) {
+		return fmt.Sprintf("after the late registration Marshal gives %x (%v %s), the instance that had the registration from the start gives %x", got, err, trunc1(pn), want)
+	}
+	for _, rd := range []*plenc.Plenc{late, upfront} {
+		var back LateDoc
+		if err, pn := unmarshal(rd, want, &back); err != nil || pn != "" {
+			return fmt.Sprintf("Unmarshal after the late registration: %v %s", err, trunc1(pn))
+		}
+		if !reflect.DeepEqual(&back, doc) {
+			which := "the instance that had the registration from the start"
+			if rd == late {
+				which = "the instance with the late registration"
+			}
+			return fmt.Sprintf("%s loses presence or values over a round trip: got %s, want %s", which, model.Show(reflect.ValueOf(back)), model.Show(reflect.ValueOf(*doc)))
+		}
+	}
+	return ""
 }
 
 // c17BuiltinTags: one instance registers codecs under new tag names for built-in types (the types
